@@ -48,8 +48,14 @@ def spell(rng, kind, per):
             return ["i", per], "int"
         return ["s", "%04d" % per], "year-str"
     if kind == "month":
-        if rng.random() < 0.5:
+        r = rng.random()
+        if r < 0.35:
             return ["t", [["i", per[0]], ["i", per[1]]]], "tuple"
+        if r < 0.55:
+            # "a tuple of two ints (or two strings convertable to an int)"
+            return ["t", [["s", "%04d" % per[0]],
+                          ["s", rng.choice(["%02d", "%d"]) % per[1]]]], \
+                "tuple-of-strings"
         return ["s", "%04d-%02d" % per], "month-str"
     if rng.random() < 0.5:
         return ["date", per.year, per.month, per.day], "date"
